@@ -273,6 +273,103 @@ def schema_geometry(rows, out):
     return None
 
 
+# which recorded events each property looks at, and which rejected events are *its* alarm
+TRACE_FILTER = {
+    "C01": ({"init", "full"}, {"full"}),
+    "C02": ({"init", "eps"}, {"eps"}),
+    "C03": (None, {"eps"}),
+    "C06": ({"init", "enter", "exit", "align", "block", "w", "flush", "ret"}, {"enter", "exit", "align", "block", "w", "flush", "ret"}),
+    "C07": ({"init", "enter", "exit", "align", "block", "w", "flush", "ret", "full"}, {"align", "block", "ret", "full"}),
+    "C18": (None, {"rows"}),
+}
+WHAT = {"full": "full-copy deserialization of a recorded stream did not return the serialized value / consume it",
+        "eps": "ε-copy deserialization of a recorded stream did not return the serialized value, or a borrowed part "
+               "is not a block the serializer wrote",
+        "rows": "the rows recorded by serialize_with_schema are not the rows of the serializer machine",
+        "w": "a write_all call of the real serializer is not the next write of the serializer machine",
+        "align": "an alignment request of the real serializer (unit / position) is not the machine's",
+        "block": "a write_bytes call of the real serializer (unit / position / length) is not the machine's",
+        "ret": "the returned byte count is not the number of bytes handed to the writer"}
+
+
+def trace_validation(pid, tier, seed, V, tag):
+    """impl -> spec: recorded executions on random types and values validated against Trace_Ser.tla"""
+    from .cursor import split_runs
+    runs, maxlen = (150, 30) if tier == "quick" else (1500, 120)
+    raw = os.path.join(WORK, tag, "recorded.ndjson")
+    open(raw, "w").write(harness(["record", str(seed), str(runs), str(maxlen)], timeout=3000))
+    keep, mine = TRACE_FILTER[pid]
+    path = os.path.join(WORK, tag, f"trace_{pid}.ndjson")
+    nev = 0
+    with open(path, "w") as f:
+        for line in open(raw):
+            ev = json.loads(line)["ev"]
+            if keep is None or ev in keep:
+                f.write(line)
+                nev += 1
+    acc, rej = validate_ser_traces(path, tag, V, pid, mine)
+    V.cov["traces_validated_against_impl"] += acc
+    V.cov["recorded_runs"] = acc + rej
+    V.cov["recorded_runs_accepted"] = acc
+    V.cov["recorded_events"] = nev
+
+
+def validate_ser_traces(path, tag, V, pid, mine):
+    from .cursor import split_runs
+    runs = split_runs(path)
+    consts = {"UsizeBytes": 8, "ZstUnit": 1, "VLevel": 1, "TupleRangeConstTrue": False, "BugSliceFree": False,
+              "SinkGrain": "call", "SinkFaulty": False, "MaxFaults": 0}
+    accepted = rejected = 0
+    pending = runs
+    rounds = 0
+    while pending and rounds < 25:
+        rounds += 1
+        p = os.path.join(WORK, tag, f"tser_{pid}_{rounds}.ndjson")
+        with open(p, "w") as f:
+            for r in pending:
+                f.writelines(r)
+        cfg = os.path.join(WORK, tag, "tser.cfg")
+        write_cfg(cfg, consts, init="TInit", next_="TNext", invariants=["TPosCounts", "TBlockAligned"],
+                  extra="POSTCONDITION Accepted")
+        r = tlc("Trace_Ser", cfg, tag, env={"TRACE": p}, workers=1, timeout=3000,
+                java_opts=["-Xss1g", "-Dtlc2.tool.queue.IStateQueue=StateDeque"])
+        V.add_tlc(r)
+        if r.violated:
+            raise ToolError(f"invariant {r.violated} violated during trace validation:\n{r.out[-2000:]}")
+        if "TRACE-REJECTED" not in r.out:
+            if r.error:
+                raise ToolError(f"trace validation failed: {r.error}\n{r.out[-2000:]}")
+            accepted += len(pending)
+            break
+        m = re.search(r'"TRACE-REJECTED at line",\s*(\d+)', r.out)
+        line = int(m.group(1))
+        n = 0
+        bad = None
+        for i, run in enumerate(pending):
+            if n < line <= n + len(run):
+                bad = i
+                break
+            n += len(run)
+        if bad is None:
+            raise ToolError(f"trace rejected at line {line} beyond the trace")
+        run = pending[bad]
+        at = line - n - 1
+        ev = json.loads(run[at])
+        init = json.loads(run[0])
+        kind = ev["ev"]
+        rep = {"init": init, "rejected_event": ev, "event_index": at, "prefix": [json.loads(x) for x in run[max(1, at - 6):at]]}
+        if kind in mine:
+            from .gen_key import key_of_desc
+            V.violate(f"{pid}:trace-{kind}:{key_of_desc(init['t'])}", WHAT.get(kind, "recorded execution rejected") +
+                      f" (type {key_of_desc(init['t'])}, event #{at}: {json.dumps(ev)[:160]})", rep)
+        else:
+            V.notes.append(f"SPEC-DRIFT: recorded run rejected at a `{kind}` event (not this property's): {json.dumps(ev)[:120]}")
+        rejected += 1
+        accepted += bad
+        pending = pending[bad + 1:]
+    return accepted, rejected
+
+
 TIERS = {
     # typeset, value level, preceding lengths of the body-only runs
     "quick": ("quick1", 1, [0, 1, 2, 3, 5, 7, 9, 15]),
@@ -295,6 +392,7 @@ def check(pid, tier, seed, V, facts, names_path):
     obs = replay(cases, tag)
     for b, o in zip(beh, obs):
         judge(pid, b, o, facts, V)
+    trace_validation(pid, tier, seed, V, tag)
     if pid == "C06":
         # the hash recipes are part of the published format: real preimage (recording Hasher) = specification's,
         # for every compiled type (the header words of the streams above are xxh3 of the specification's preimage)
